@@ -402,8 +402,23 @@ struct MS {
     it: [u32; 8],
 }
 
+/// An item emplacer that always fails after the slot and the minimum size were checked
+/// ("nested emplacer error").
+pub struct Failing;
+macro_rules! failing_for {
+    ($($t:ty),*) => {$(
+        unsafe impl flatty::Emplacer<$t> for Failing {
+            unsafe fn emplace_unchecked(self, _: &mut [u8]) -> Result<&mut $t, flatty::Error> {
+                Err(flatty::Error { kind: flatty::error::ErrorKind::Other, pos: 0 })
+            }
+        }
+    )*};
+}
+failing_for!(u8, u16, le::U16);
+
 pub trait FlexElem: Shape {
     type E: Flat + Sized + Copy + flatty::FlatDefault + flatty::Emplacer<Self::E>;
+    fn push_failing(v: &mut FlexVec<Self::E, Self::L>) -> bool;
     type L: Flat + flatty::vec::Length;
     const OS: usize;
     const ESZ: usize;
@@ -424,6 +439,9 @@ macro_rules! flex_elem {
             }
             fn from_u32($x: u32) -> $E {
                 $from
+            }
+            fn push_failing(v: &mut FlexVec<$E, $L>) -> bool {
+                v.push(Failing).is_ok()
             }
         }
     };
@@ -453,7 +471,11 @@ fn seq_eq(a: &MS, b: &MS) -> bool {
     cmp!(0 1 2 3 4 5 6 7)
 }
 
-pub fn flex_step<S: FlexElem, const CAP: usize, const OP: u8>()
+/// `LEAN`: the pre-state is mapped with `from_mut_bytes_unchecked` (its validity is the assumed
+/// reference well-formedness) and the post-state is judged by the reference decoder only; the
+/// library's own validate on both states is then C02's obligation for the same shape (accept
+/// harness). Saves two of the six chain walks, which dominate solver time.
+pub fn flex_step<S: FlexElem, const CAP: usize, const OP: u8, const LEAN: bool>()
 where
     S: Shape<T = FlexVec<<S as FlexElem>::E, <S as FlexElem>::L>>,
 {
@@ -493,9 +515,13 @@ where
     let mut m1 = m0;
     let mut refused = false;
     {
-        let v = match <S::T>::from_mut_bytes(&mut a.0[..n]) {
-            Ok(v) => v,
-            Err(_) => return,
+        let v = if LEAN {
+            unsafe { <S::T>::from_mut_bytes_unchecked(&mut a.0[..n]) }
+        } else {
+            match <S::T>::from_mut_bytes(&mut a.0[..n]) {
+                Ok(v) => v,
+                Err(_) => return,
+            }
         };
         match op {
             0 | 1 => {
@@ -529,6 +555,11 @@ where
                 v.clear();
                 m1.len = 0;
             }
+            6 => {
+                let ok = S::push_failing(v);
+                assert!(!ok, "a push whose item emplacer fails is refused");
+                refused = true;
+            }
             _ => {
                 kani::assume(idx < m0.len);
                 let mut i = 0;
@@ -553,8 +584,10 @@ where
     let d1 = S::decode(&a.0[..n]);
     assert!(d1.ok(), "the bytes are a well-formed encoding after the operation");
     assert!(d1.c.d[d1.c.n - 1] as usize == m1.len, "the bytes re-map to a sequence of the same length");
-    assert!(<S::T>::validate(&a.0[..n]).is_ok(), "the bytes validate after the operation (library)");
-    if op == 0 || op == 4 {
+    if !LEAN {
+        assert!(<S::T>::validate(&a.0[..n]).is_ok(), "the bytes validate after the operation (library)");
+    }
+    if !LEAN && (op == 0 || op == 4) {
         if let Ok(v2) = <S::T>::from_bytes(&a.0[..n]) {
             assert!(v2.size() == d1.ext && d1.ext <= n, "size() is the reference extent of the new state");
         }
@@ -563,7 +596,8 @@ where
         assert!(d1.c.eq(&d0.c) && d1.ext == d0.ext, "a refused push leaves content and size() unchanged");
     }
     assert!(tail_unchanged(&a, &orig, n), "no byte after the vector's slice was written");
-    kani::cover!((refused && m0.len > 0) || op > 1, "w:refused-nonempty");
+    kani::cover!((refused && m0.len > 0) || (op > 1 && op != 6), "w:refused-nonempty");
+    kani::cover!((refused && fits) || op != 6, "w:emplacer-failed-although-it-fits");
     kani::cover!((!refused && m0.len >= 1) || op > 1, "w:push-seals-previous");
     kani::cover!(m0.len >= 2 || op != 2, "w:pop-keeps-rest");
     kani::cover!((idx >= 1 && idx < m0.len) || op != 3, "w:truncate-middle");
@@ -572,7 +606,7 @@ where
 
 /// FlexVec of unsized items: FlexVec<FlatVec<u8,u8>,u8>. The state is compared through the
 /// reference decoding (canonical content = [len_0, items_0.., len_1, .., count]).
-pub fn flexv_step<const CAP: usize, const OP: u8>() {
+pub fn flexv_step<const CAP: usize, const OP: u8, const LEAN: bool>() {
     type S = X_V;
     let mut a: A16<CAP> = A16(kani::any());
     let orig = a;
@@ -605,9 +639,13 @@ pub fn flexv_step<const CAP: usize, const OP: u8>() {
     let fits = n >= d0.aux && n - d0.aux >= 1 + 1 + m;
     let mut edit_fits = false;
     {
-        let v = match <<S as Shape>::T>::from_mut_bytes(&mut a.0[..n]) {
-            Ok(v) => v,
-            Err(_) => return,
+        let v = if LEAN {
+            unsafe { <<S as Shape>::T>::from_mut_bytes_unchecked(&mut a.0[..n]) }
+        } else {
+            match <<S as Shape>::T>::from_mut_bytes(&mut a.0[..n]) {
+                Ok(v) => v,
+                Err(_) => return,
+            }
         };
         let keep;
         match op {
@@ -688,7 +726,9 @@ pub fn flexv_step<const CAP: usize, const OP: u8>() {
     }
     let d1 = S::decode(&a.0[..n]);
     assert!(d1.ok(), "the bytes validate after the operation");
-    assert!(<<S as Shape>::T>::validate(&a.0[..n]).is_ok(), "the bytes validate after the operation (library)");
+    if !LEAN {
+        assert!(<<S as Shape>::T>::validate(&a.0[..n]).is_ok(), "the bytes validate after the operation (library)");
+    }
     assert!(d1.c.eq(&want), "items (in order, with contents) equal the sequence model");
     if refused {
         assert!(d1.c.eq(&d0.c) && d1.ext == d0.ext, "a refused push leaves items and size() unchanged");
@@ -713,38 +753,43 @@ macro_rules! vstep {
     };
 }
 macro_rules! xstep {
-    ($shape:ident, $m:ident, $cap:literal, $unw:literal) => {
+    ($shape:ident, $m:ident, $cap:literal, $unw:literal, $lean:literal) => {
         #[allow(non_snake_case)]
         pub mod $m {
             #[kani::proof]
             #[kani::unwind($unw)]
             fn push() {
-                super::flex_step::<crate::shapes::$shape, $cap, 0>()
+                super::flex_step::<crate::shapes::$shape, $cap, 0, $lean>()
             }
             #[kani::proof]
             #[kani::unwind($unw)]
             fn push_default() {
-                super::flex_step::<crate::shapes::$shape, $cap, 1>()
+                super::flex_step::<crate::shapes::$shape, $cap, 1, $lean>()
             }
             #[kani::proof]
             #[kani::unwind($unw)]
             fn pop() {
-                super::flex_step::<crate::shapes::$shape, $cap, 2>()
+                super::flex_step::<crate::shapes::$shape, $cap, 2, $lean>()
             }
             #[kani::proof]
             #[kani::unwind($unw)]
             fn truncate() {
-                super::flex_step::<crate::shapes::$shape, $cap, 3>()
+                super::flex_step::<crate::shapes::$shape, $cap, 3, $lean>()
             }
             #[kani::proof]
             #[kani::unwind($unw)]
             fn clear() {
-                super::flex_step::<crate::shapes::$shape, $cap, 4>()
+                super::flex_step::<crate::shapes::$shape, $cap, 4, $lean>()
             }
             #[kani::proof]
             #[kani::unwind($unw)]
             fn edit() {
-                super::flex_step::<crate::shapes::$shape, $cap, 5>()
+                super::flex_step::<crate::shapes::$shape, $cap, 5, $lean>()
+            }
+            #[kani::proof]
+            #[kani::unwind($unw)]
+            fn push_failing() {
+                super::flex_step::<crate::shapes::$shape, $cap, 6, $lean>()
             }
         }
     };
@@ -755,10 +800,11 @@ vstep!(V_U16, V_U16_st, 9, 12);
 vstep!(V_U8L32, V_U8L32_st, 10, 13);
 vstep!(V_A3, V_A3_st, 10, 13);
 vstep!(V_P, V_P_st, 8, 11);
-xstep!(X_U8, X_U8_st, 5, 8);
-xstep!(X_U8, X_U8_st6, 6, 9);
-xstep!(X_U16, X_U16_st, 6, 9);
-xstep!(X_P, X_P_st, 6, 9);
+xstep!(X_U8, X_U8_st4, 4, 5, true);
+xstep!(X_U8, X_U8_st, 5, 8, false);
+xstep!(X_U8, X_U8_st6, 6, 9, false);
+xstep!(X_U16, X_U16_st, 6, 9, false);
+xstep!(X_P, X_P_st, 6, 9, false);
 
 pub mod string {
     #[kani::proof]
@@ -775,25 +821,32 @@ pub mod lmax {
     }
 }
 
+pub mod X_V_st4 {
+    #[kani::proof]
+    #[kani::unwind(6)]
+    fn push() {
+        super::flexv_step::<4, 0, true>()
+    }
+}
 pub mod X_V_st {
     #[kani::proof]
     #[kani::unwind(9)]
     fn push() {
-        super::flexv_step::<5, 0>()
+        super::flexv_step::<5, 0, false>()
     }
     #[kani::proof]
     #[kani::unwind(9)]
     fn pop() {
-        super::flexv_step::<6, 1>()
+        super::flexv_step::<6, 1, false>()
     }
     #[kani::proof]
     #[kani::unwind(9)]
     fn truncate() {
-        super::flexv_step::<6, 2>()
+        super::flexv_step::<6, 2, false>()
     }
     #[kani::proof]
     #[kani::unwind(9)]
     fn edit() {
-        super::flexv_step::<6, 4>()
+        super::flexv_step::<6, 4, false>()
     }
 }
